@@ -327,6 +327,19 @@ def run_property(pid, res, proofs_ok, proofs_why, only=None):
             hist = gen_history(rng, 40 if i % 5 else 6, mix)
             lines.append(line_of(rng.choice([0, 1000, 5000, 50000, 10 ** 9 - 1, 2 ** 32 - 1]), hist))
             tags.append("mix%d" % MIXES.index(mix))
+        # long runs of one outcome: a measurement (or none), then 6..40 outages / PHC failures in a row, inside and
+        # outside the grace period, then perhaps a report again - the status follows the latest outcome however
+        # many of a kind came before it
+        for i in range(max(20, n // 15)):
+            t = rng.randrange(1, 10 ** 5) * NS
+            hist = gen_history(rng, 3, MIXES[0])
+            run = rng.randrange(6, 41)
+            kinds = rng.choice([["m"], ["p"], ["m", "p"]])
+            graces = rng.choice([[1], [1, 1, 1, 0], [0], [1, 0]])
+            hist += [(rng.choice(kinds), rng.choice(graces)) for _ in range(run)]
+            hist += gen_history(rng, 2, MIXES[0])
+            lines.append(line_of(rng.choice([1000, 50000]), hist))
+            tags.append("long-run")
     else:
         lines, tags = only, ["replay"] * len(only)
     res.rule = ("message histories of length 0..40 (reports: synchronised / leap 3 / stale / unusable; outages and PHC failures inside / outside "
